@@ -56,7 +56,8 @@ double Random(void)
 
 	double ret = 0.0;
 	unsigned lzs = intrinsics_clz(u_val) + 1;
-	u_val <<= lzs;
+	// lzs is 64 when u_val == 1: a single shift by the full width would be undefined
+	u_val = (u_val << (lzs - 1)) << 1;
 	u_val >>= 12;
 
 	uint64_t exp = 1023 - lzs;
